@@ -54,7 +54,7 @@ impl PersisterTask {
             .await;
         });
         #[cfg(iggy_verif)]
-        let handle = tokio::spawn(iggy::verif::wrap_spawn("persister", async move {
+        let handle = tokio::spawn(iggy::verif::wrap_spawn(&format!("persister:{file_path}"), async move {
             Self::run(
                 file,
                 file_path,
